@@ -346,6 +346,19 @@ func (t *Table) CheckStartKey(indexName string, startKey map[string]*types.Item)
 	return nil
 }
 
+// CheckNumbers refuses attribute values of a request (an item, expression attribute values) that
+// contain a number or a number-set member that is no number: stored, such a value makes every
+// later evaluation of the item fail
+func (t *Table) CheckNumbers(values ...map[string]*types.Item) error {
+	for _, v := range values {
+		if err := checkNumbers(v); err != nil {
+			return types.NewError("ValidationException", err.Error(), nil)
+		}
+	}
+
+	return nil
+}
+
 // HasIndex reports whether the table has a secondary index with the given name
 func (t *Table) HasIndex(name string) bool {
 	_, ok := t.Indexes[name]
@@ -641,6 +654,10 @@ func (t *Table) Clear() {
 func (t *Table) Put(input *types.PutItemInput) (map[string]*types.Item, error) {
 	item := copyItem(input.Item)
 
+	if err := t.CheckNumbers(input.Item, input.ExpressionAttributeValues); err != nil {
+		return item, err
+	}
+
 	key, err := t.KeySchema.GetKey(t.AttributesDef, input.Item)
 	if err != nil {
 		return item, types.NewError("ValidationException", err.Error(), nil)
@@ -735,6 +752,10 @@ func (t *Table) interpreterUpdate(input interpreter.UpdateInput) error {
 
 // Update updates an item in the table based on the input
 func (t *Table) Update(input *types.UpdateItemInput) (map[string]*types.Item, error) {
+	if err := t.CheckNumbers(input.ExpressionAttributeValues); err != nil {
+		return nil, err
+	}
+
 	// update primary index
 	key, err := t.KeySchema.GetKey(t.AttributesDef, input.Key)
 	if err != nil {
@@ -820,6 +841,10 @@ func (t *Table) Update(input *types.UpdateItemInput) (map[string]*types.Item, er
 
 // Delete deletes an item in the table based on the input
 func (t *Table) Delete(input *types.DeleteItemInput) (map[string]*types.Item, error) {
+	if err := t.CheckNumbers(input.ExpressionAttributeValues); err != nil {
+		return nil, err
+	}
+
 	key, err := t.KeySchema.GetKey(t.AttributesDef, input.Key)
 	if err != nil {
 		return nil, types.NewError("ValidationException", err.Error(), nil)
